@@ -18,25 +18,31 @@ inductive ExpErr where
   | fuel                    -- unreachable: the scan consumes a character per turn
   deriving Repr, DecidableEq
 
+/-- does the text after a `$(` continue with `name)` (one or more variable characters, then `)`)?
+    Returns the name and what follows the `)`. -/
+def matchVar (rest : List Char) : Option (List Char × List Char) :=
+  match rest.takeWhile isVarChar, rest.dropWhile isVarChar with
+  | n :: ns, ')' :: after => some (n :: ns, after)
+  | _, _ => none
+
+/-- a reference `$(name)` at the head of the text: the name and the text after it -/
+def refAt : List Char → Option (List Char × List Char)
+  | '$' :: '(' :: rest => matchVar rest
+  | _ => none
+
 /-- the scan: `fuel` ≥ length of the remaining text + 1 -/
 def expandGo (env : String → Option String) (tolerate : Bool) : Nat → List Char → Except ExpErr (List Char)
   | 0, _ => .error .fuel
   | _ + 1, [] => .ok []
   | fuel + 1, c :: rest =>
-    match c, rest with
-    | '$', '(' :: rest' =>
-      let name := rest'.takeWhile isVarChar
-      let after := rest'.dropWhile isVarChar
-      match name, after with
-      | _ :: _, ')' :: after' =>
-        -- a match `$(name)`
-        match env (String.ofList name) with
-        | some v => (expandGo env tolerate fuel after').map (v.toList ++ ·)
-        | none =>
-          if tolerate then (expandGo env tolerate fuel after').map (('$' :: '(' :: name ++ [')']) ++ ·)
-          else .error (.unset (String.ofList name))
-      | _, _ => (expandGo env tolerate fuel rest).map (c :: ·)
-    | _, _ => (expandGo env tolerate fuel rest).map (c :: ·)
+    match refAt (c :: rest) with
+    | some (name, after) =>
+      match env (String.ofList name) with
+      | some v => (expandGo env tolerate fuel after).map (v.toList ++ ·)
+      | none =>
+        if tolerate then (expandGo env tolerate fuel after).map (('$' :: '(' :: name ++ [')']) ++ ·)
+        else .error (.unset (String.ofList name))
+    | none => (expandGo env tolerate fuel rest).map (c :: ·)
 
 /-- `Reloader.expandEnv`.  Go reports the FIRST unset variable; so does the scan. -/
 def expandEnv (env : String → Option String) (tolerate : Bool) (s : String) : Except ExpErr String :=
